@@ -1,5 +1,5 @@
 CONSTANTS MaxTok = 2
-  Full = FALSE
+  Alphabet = "quick"
 INIT Init
 NEXT Next
 INVARIANT Emit
